@@ -581,7 +581,6 @@ Proof.
   eapply (hoare_no_panic Inv) with (Q := fun _ => Inv) (E := Inv); [|apply Inv_init].
   unfold read_then_ops. eapply hoare_bind; [apply reader_read_keeps'|].
   intros ?. eapply hoare_zoom; [apply (run_ops_inv true xs)| | |].
-  - apply Forall_forall. intros x _ _. reflexivity.
   - intros s Hs. exact (i_file s Hs).
   - intros s r f Hs Wf. exact (Inv_set_rfile f s Hs Wf).
   - intros s f Hs Wf. exact (Inv_set_rfile f s Hs Wf).
